@@ -224,7 +224,7 @@ impl Out {
                         b01(enc_version(&v) == enc_version(&w)),
                         b01(w.to_string() == printed)
                     ),
-                    Err(e) => format!("reparse-{}", enc_kind(e.kind())),
+                    Err(e) => format!("reparse-{} printed_len={}", enc_kind(e.kind()), printed.len()),
                 }
             }
         };
